@@ -158,7 +158,7 @@ func udpSrvPacket(c Case) []byte {
 	}
 	sep := make([]byte, 16)
 	binary.BigEndian.PutUint64(sep, c.Csid)
-	binary.BigEndian.PutUint64(sep[8:], 7)
+	binary.BigEndian.PutUint64(sep[8:], uint64(c.Now)) // client packet id (degenerate values: 0, 2^64-1)
 	userPSK := udpPSK
 	var pkt []byte
 	if c.Flag { // EIH: separate header under the iPSK, identity header = AES_iPSK(hash(uPSK) xor sep)
@@ -252,7 +252,8 @@ func udpSrvModelLine(c Case) string {
 
 func init() {
 	gen := func(r *common.Rng, i int) Case {
-		c := Case{Entry: "udpsrv", Pre: true, Csid: r.U64(), Flag: r.Chance(1, 3), PS: common.Pick(r, []int{0, 1, 300}), Patch: true, TsOff: common.Pick(r, tsOffsets)}
+		c := Case{Entry: "udpsrv", Pre: true, Csid: common.Pick(r, []uint64{0, 1, ^uint64(0), r.U64(), r.U64(), r.U64()}), Now: common.Pick(r, []int64{7, 7, 0, 1, -1}),
+			Flag: r.Chance(1, 3), PS: common.Pick(r, []int{0, 1, 300}), Patch: true, TsOff: common.Pick(r, tsOffsets)}
 		msg := maybeMutate(r, udpClientMsg(r, baseNow))
 		if r.Chance(1, 10) {
 			c.Patch = false
@@ -303,6 +304,12 @@ func init() {
 	register(engine{name: "udpcli", bubble: true, share: 40,
 		gen: func(r *common.Rng, i int) Case {
 			c := Case{Entry: "udpcli", Pre: true, PS: common.Pick(r, []int{0, 1, 300}), Patch: true, TsOff: common.Pick(r, tsOffsets), Csid: r.U64()}
+			// degenerate separate-header fields: server session id 0 / equal to the established session / equal to the client
+			// session id; packet id 0, 1 (the prelude's: a replay), 2^64-1; as first packet and after a session is established
+			c.Csid = common.Pick(r, []uint64{0, 0, udpCliPreludeSSID, 1, ^uint64(0), r.U64(), r.U64(), r.U64()})
+			c.Now = common.Pick(r, []int64{3, 3, 0, 1, -1})
+			c.Flag2 = r.Chance(1, 8)
+			c.PL = common.Pick(r, []int{0, 0, 1})
 			c.Hex = hx(maybeMutate(r, udpServerMsg(r, baseNow, 0)))
 			c.Flag = !r.Chance(1, 8) // patch the real client session id into the message
 			switch r.Intn(10) {
@@ -315,9 +322,27 @@ func init() {
 			}
 			return c
 		},
+		fixed: func() []Case {
+			var cs []Case
+			for _, ssid := range []uint64{0, 1, udpCliPreludeSSID, ^uint64(0)} {
+				for _, spid := range []int64{0, 1, 3, -1} {
+					for _, prelude := range []int{0, 1} {
+						for _, own := range []bool{false, true} {
+							for _, n := range []int{0, 1} {
+								cs = append(cs, Case{Entry: "udpcli", Pre: true, Patch: true, Flag: true, Csid: ssid, Now: spid, PL: prelude, Flag2: own, N: n,
+									Hex: "01" + "0000000000000000" + "0000000000000000" + "0000" + "01c0000209" + "0035" + "aabb"})
+							}
+						}
+					}
+				}
+			}
+			return cs
+		},
 		impl: func(c Case) string { out, _ := udpCli(c); return out },
 		line: func(c Case) string { _, l := udpCli(c); return l }})
 }
+
+const udpCliPreludeSSID = 0x0102030405060708
 
 // udpCli runs a fresh client session against one crafted server datagram; returns the canonical result and the model line.
 func udpCli(c Case) (string, string) {
@@ -352,8 +377,12 @@ func udpCli(c Case) (string, string) {
 			binary.BigEndian.PutUint64(msg[9:17], csid)
 		}
 		sep := make([]byte, 16)
-		binary.BigEndian.PutUint64(sep, c.Csid) // server session id
-		binary.BigEndian.PutUint64(sep[8:], 3)
+		ssid := c.Csid // server session id
+		if c.Flag2 {
+			ssid = csid
+		}
+		binary.BigEndian.PutUint64(sep, ssid)
+		binary.BigEndian.PutUint64(sep[8:], uint64(c.Now))
 		ucc, _ := ss2022.NewUserCipherConfig(udpPSK, true)
 		aead, _ := ucc.AEAD(sep[:8])
 		body := aead.Seal(nil, sep[4:16], msg, nil)
@@ -379,7 +408,32 @@ func udpCli(c Case) (string, string) {
 			}
 		}
 	}
-	line := fmt.Sprintf("udpcliunpack %d %d 1 0 %s %d %d %s", curNow, csid, opened, front, len(pkt), hexf(mbuf))
+	// session state of the unpacker before the packet under test (fresh: both slots {id 0, no AEAD}, never seen a session)
+	curID, curHas, tooSoon, replayed := uint64(0), false, false, false
+	if c.PL == 1 { // prelude: one well-formed packet of server session udpCliPreludeSSID, packet id 1, establishes a session
+		pm := []byte{1}
+		pm = binary.BigEndian.AppendUint64(pm, uint64(curNow))
+		pm = binary.BigEndian.AppendUint64(pm, csid)
+		pm = append(pm, 0, 0, 1, 192, 0, 2, 9, 0, 53, 0xcc)
+		psep := make([]byte, 16)
+		binary.BigEndian.PutUint64(psep, udpCliPreludeSSID)
+		binary.BigEndian.PutUint64(psep[8:], 1)
+		ucc, _ := ss2022.NewUserCipherConfig(udpPSK, true)
+		aead, _ := ucc.AEAD(psep[:8])
+		pbody := aead.Seal(nil, psep[4:16], pm, nil)
+		pesep := make([]byte, 16)
+		blk.Encrypt(pesep, psep)
+		ppkt := append(pesep, pbody...)
+		pbuf := append(ppkt, make([]byte, 16)...)
+		if _, _, _, err := sess.Unpacker.UnpackInPlace(pbuf, serverAP, 0, len(ppkt)); err != nil {
+			panic("prelude packet refused: " + err.Error())
+		}
+		curID, curHas, tooSoon = udpCliPreludeSSID, true, true
+		if len(pkt) >= 16 {
+			replayed = binary.BigEndian.Uint64(mbuf[front:]) == udpCliPreludeSSID && binary.BigEndian.Uint64(mbuf[front+8:]) == 1
+		}
+	}
+	line := fmt.Sprintf("udpcliunpack %d %d %d %s 0 0 %s %s %s %d %d %s", curNow, csid, curID, b01(curHas), b01(tooSoon), b01(replayed), opened, front, len(pkt), hexf(mbuf))
 	ap, ps, pl, err := sess.Unpacker.UnpackInPlace(buf, serverAP, front, len(pkt))
 	return okOrErr(err, fmt.Sprintf("%s %d %d", renderAP(ap), ps, pl)), line
 }
